@@ -405,3 +405,35 @@ func RangeValue(xs []int) int {
 	}
 	return s
 }
+
+// --- select: a receive from a channel closed before the call is always ready ---
+
+type Gate struct {
+	closed chan struct{}
+	work   chan int
+}
+
+// SendChecked tests the closed signal first: a closed gate refuses every send.
+func (g *Gate) SendChecked(v int) bool {
+	select {
+	case <-g.closed:
+		return false
+	default:
+	}
+	select {
+	case <-g.closed:
+		return false
+	case g.work <- v:
+		return true
+	}
+}
+
+// SendRacy leaves the choice to the scheduler: a closed gate may still accept.
+func (g *Gate) SendRacy(v int) bool {
+	select {
+	case <-g.closed:
+		return false
+	case g.work <- v:
+		return true
+	}
+}
